@@ -14,11 +14,11 @@ def describe(tier):
         "type x value alphabet (several header contents per dynamic shape) x every path of T._gen_data_paths() x every in-range index tuple, every "
         "generated accessor of the path (names taken from capi.methods_from_path) is called on an object sitting at a non-zero offset of a buffer: "
         "_get == Python element; _getp - buffer base == Python offset of the denoted element (slot address for union references); _len == len(); "
-        "_typeid == member index or -1; _member - base == offset of the target. One transition = one C call.",
+        "_typeid == member index or -1; _member - base == offset of the target. One transition = one C call. Name twins: pairs of different layouts that share every generated name (array classes differing only in axis order, a struct redefined under the same name) are processed one after the other in one process, in both orders.",
         bounds=dict(types=len(types_for(tier)), values=["ramp", "extreme", "minimal"], batch=24),
         assumptions=["paths through a null reference and _member of a null union reference are not well-formed calls and are not made",
                      "two distinct types with the same generated class name are never put in one translation unit (documented xobjects limitation)"],
-        must_fire=["get", "getp", "len", "typeid", "member"],
+        must_fire=["get", "getp", "len", "typeid", "member", "twin-1"],
     )
 
 
@@ -36,11 +36,27 @@ def types_for(tier):
     return out
 
 
+def twin_pairs(tier):
+    """pairs of different layouts that share every class / field name along their access paths"""
+    STR, Sc, St, Arr = xt.STR, xt.Sc, xt.St, xt.Arr
+    arrs = [Arr(Sc("i64"), (3, 4)), Arr(STR, (2, 3)), Arr(Sc("f32"), (None, 3)), Arr(Sc("i16"), (2, 3, 4)), Arr(universe.S_D1, (2, None)), Arr(Sc("u8"), (None, None, 2))]
+    out = [("array", a, xt.twin(a)) for a in arrs]
+    out += [("array-in-struct", St(Sc("i8"), a), St(Sc("i8"), xt.twin(a))) for a in arrs[:3]]
+    # a struct redefined under the same name with another layout
+    out.append(("struct", St(("coords", Arr(Sc("f64"), (2,))), ("weight", Sc("f64"))), St(("coords", Arr(Sc("f64"), (3,))), ("weight", Sc("f64")))))
+    out.append(("struct", St(("tag", STR), ("v", Arr(Sc("i32"), (None,))), ("k", Sc("i64"))), St(("k", Sc("i64")), ("tag", STR), ("v", Arr(Sc("i32"), (None,))))))
+    return out
+
+
 def shards(tier, seed):
     common.quiet()
     ts = types_for(tier)
     ts = ts[seed % len(ts):] + ts[: seed % len(ts)]
-    return cseam.plan_batches(ts, 24)
+    out = cseam.plan_batches(ts, 24)
+    for kind, a, b in twin_pairs(tier):
+        out.append(("twins", kind, a, b))
+        out.append(("twins", kind, b, a))
+    return out
 
 
 def expected_kind(lt):
@@ -96,7 +112,27 @@ def check_object(t, v, obj, ctx, res, vmode):
     return out
 
 
+def run_twins(shard, tier, seed):
+    """two types whose generated names coincide are processed one after the other in this process, each in its own
+    module: what is generated for the second must not depend on the first"""
+    _, kind, a, b = shard
+    res = common.ShardResult()
+    for k, t in enumerate((a, b)):
+        if kind == "struct":
+            xt.build_as(t, "TwinStruct")
+        r = run_shard([t], tier, seed)
+        for v in r.violations:
+            v["features"]["twin"] = kind
+            v["features"]["twin_position"] = k
+            v["case"]["twin_of"] = common.jsonable(b if k == 0 else a)
+        res.merge(r)
+        res.events["twin-%d" % k] += 1
+    return res
+
+
 def run_shard(types, tier, seed):
+    if types and types[0] == "twins":
+        return run_twins(types, tier, seed)
     res = common.ShardResult()
     try:
         ctx, kernels = cseam.build_module(types)
